@@ -69,6 +69,11 @@ MISSED_FIRST.update({
     "C18-f": "client turns away control frames while a fragmented message is in progress — missed; caught after 'every frame reaches the opcode dispatch' was added to C18-R5",
     "C20-e": "reload() re-resolves the lookup bases through a helper taking the root by non-const reference — missed; caught after C20-R6 treated non-const reference hand-outs as writes",
 })
+MISSED_FIRST.update({
+    "C15-e": "client drops the raw bytes of decoded chunks while more is awaited (receipt cap no longer bounds the decoded body) — missed; caught after 'the raw buffer is never shrunk during framing' was added to C15-R3",
+    "C15-f": "Content-Length parsed with from_chars without testing ec — first run ended as ANALYSIS-BROKEN (instance floors counted sto* sites only); floors now count from_chars sites too and C15-R2 reports the unchecked result",
+    "C16-f": "framing notes a later request's Connection: close in per-connection state — missed; caught after 'SessionInfo close state is never written' was added to C16-R6",
+})
 REFUSED_ONLY = {
     "C10-e": "DynamicRingBuffer::resize copies run-wise with std::move ranges (loses everything on an exactly full buffer): the new C10-R6 evaluates the per-index copy loop exactly and REFUSES (exit 2) the range-copy form — it is not passed, but it is not reported as a violation either",
 }
@@ -85,6 +90,9 @@ IMPRECISE_FIRST.update({
 })
 CROSS = {"C16-b": ["C15"]}
 SUPERSEDED = {
+    "C16-e": "the HEAD block it restructures was rewritten by fix 880889a (bodyless statuses for every method); evaluated on the tree before that fix: caught by C16-R4 (HEAD with body). The equivalent on today's tree is mutants/C16/m12-bodyless-head-only.diff.",
+    "C19-e": "the throw it replaces was retyped by fix 4800a07, so the patch no longer applies; evaluated on the tree before that fix: caught by C19-R2 (precise after the rule learnt to judge checkBounds-based validation). The same change on today's tree is mutants/C19/pointer_checkbounds_off_by_one.diff.",
+    "C17-e": "clamping the read length no longer hides surplus bytes since fix 00f48a2 (the transport is probed for pending input before reuse): its demonstration prints OK on today's tree with the change applied. On the tree before that fix it was missed.",
     "C07-c": "applyTls12Floor was rewritten by fix 3ce2863 (floor first, then raise); evaluated on the tree before that fix: caught by C07-R2. The equivalent change on today's tree is mutants/C07/floor_lowered.diff.",
     "C08-f": "the off-by-one in the wheel's level selection no longer manifests since fix d75c3f1 (level-0 fires only entries that are due): its demonstration prints OK on today's tree with the change applied. On the tree before that fix it was missed (no rule looked at level selection).",
     "C15-b": "the try/catch it narrows was removed by fix 89c0d74 (strict chunk-size parser no longer throws); evaluated on the tree before that fix: caught by C15-R4. The equivalent change on today's tree is mutant mutants/C15/m10-server-catch-narrow.diff.",
